@@ -28,6 +28,11 @@ rm -rf "$W"; mkdir -p "$W/seeds" "$W/art" "$W/empty"
 $VERIF "$ID" --write-seeds "$MODE" "$W/seeds" 256 >/dev/null || exit 2
 K=${VERIF_FUZZ_PROCS:-8}
 if [ "$MODE" = raw ]; then RUNS=${VERIF_FUZZ_RUNS:-2000000}; MAXLEN=512; else RUNS=${VERIF_FUZZ_RUNS:-600000}; MAXLEN=4096; fi
+# C13 evaluates 63 paddings per case: a tenth of the runs is the same work
+if [ "$ID" = C13 ] && [ -z "$VERIF_FUZZ_RUNS" ]; then RUNS=60000; fi
+# wall-clock cap per process: only a safety net for a slow machine - it ends the exploration early
+# (reported in the statistics), it is never a verdict
+CAP=${VERIF_FUZZ_CAP_S:-420}
 T0=$(date +%s.%N)
 k=0
 while [ $k -lt "$K" ]; do
@@ -35,9 +40,10 @@ while [ $k -lt "$K" ]; do
     if [ $((k % 2)) -eq 0 ]; then EXTRA="$W/seeds"; else EXTRA="$W/empty"; fi
     ML=$MAXLEN
     # C01 quantifies over strings of any length: one process explores the > 64 KiB regime
-    if [ "$ID" = C01 ] && [ $k -eq 6 ]; then ML=70000; fi
-    VERIF_PROP="$ID" "$BIN" "$W/c$k" "$EXTRA" -runs="$RUNS" -seed=$((SEED * K + k + 1)) -len_control=0 -max_len=$ML \
-        -timeout=25 -rss_limit_mb=4096 -artifact_prefix="$W/art/p$k-" -print_final_stats=1 >"$W/log$k" 2>&1 &
+    R=$RUNS
+    if [ "$ID" = C01 ] && [ $k -eq 6 ]; then ML=70000; R=$((RUNS / 10)); fi
+    VERIF_PROP="$ID" "$BIN" "$W/c$k" "$EXTRA" -runs="$R" -seed=$((SEED * K + k + 1)) -len_control=0 -max_len=$ML \
+        -max_total_time="$CAP" -timeout=25 -rss_limit_mb=4096 -artifact_prefix="$W/art/p$k-" -print_final_stats=1 >"$W/log$k" 2>&1 &
     k=$((k + 1))
 done
 wait
@@ -56,7 +62,7 @@ CORPLINE=$($VERIF "$ID" --corpus "$MODE" "$W"/c[0-9]* 2>/dev/null | grep '^OK') 
 cat >"$W/stats.json" <<EOF
 {"engine":"libFuzzer (cargo-fuzz 0.13, sanitizer none, debug assertions on)","target":"$MODE","processes":$K,"runs_per_process":$RUNS,
  "seed_base":$SEED,"execs":$EXECS,"max_len":$MAXLEN,"edge_coverage_max":$COV,"features_max":$FT,"corpus_files_kept":$CORP,
- "corpus_files_nontrivial":${NT:-0},"seeded_processes":"even","empty_corpus_processes":"odd","wall_s":$(echo "$T1 - $T0" | bc)}
+ "corpus_files_nontrivial":${NT:-0},"wall_clock_cap_s":$CAP,"seeded_processes":"even","empty_corpus_processes":"odd","wall_s":$(echo "$T1 - $T0" | bc)}
 EOF
 $VERIF "$ID" --merge-fuzz "$W/stats.json" || exit 2
 RC=0
